@@ -9,46 +9,34 @@ Model: `Dask.TaskTerm` (Model/TaskTerm.lean): `convert_legacy_task` / `convert_l
 `execute_graph` (as dependency recursion) and the statement's legacy semantics `evalObj` ("tuples headed by a callable
 are calls, lists and dicts are evaluated elementwise, hashable values equal to a key are references").
 
-Full statement (`FullStatement` below): for every legacy object, converting and evaluating gives the legacy value.
-It is **false of the code as it is**, in one way that replays on the real code (known finding):
-* a non-task tuple holding a key / a call is evaluated elementwise (`convert_preserves_eval_refuted_tuple`).
-(Until the `fix:` "legacy dict values are converted" a dict value that is a key / holds a call was not evaluated either;
-`convert_dict_values_evaluated` is the former refutation witness, now proved the right way round.)
-The proved theorem `convert_preserves_eval_partial` has exactly the complementary hypothesis `clean keys o`
-(every element of a non-task, non-key tuple is `plain`, i.e. evaluates to itself).
+Full statement: for every (well-formed) legacy object, converting and evaluating gives the legacy value —
+`convert_preserves_eval`, proved for all objects, key sets and environments; graph level
+`convertGraph_preserves_eval`. Two `fix:` commits of the review round made the code satisfy it: ca6daad (dict values are
+converted, they were dependencies that were never evaluated) and the "non-task tuples are literals" fix (the conversion
+evaluated them elementwise although `get_dependencies`, `subs`, `cull` and the statement treat them as literals). The
+former refutation witnesses are kept as positive examples (`convert_dict_values_evaluated`,
+`convert_non_task_tuple_literal`).
 -/
 namespace Dask.C08
 open Dask.TaskTerm
 
-/-- the statement, at full strength (refuted below) -/
-def FullStatement : Prop :=
-  ∀ (keys : List Obj) (env : Obj → Option Obj) (o : Obj), o.wf = true →
-    evalNode env (convert keys o) = evalObj keys env o
-
 mutual
 theorem convert_eval (keys : List Obj) (env : Obj → Option Obj) :
-    ∀ o, clean keys o = true → o.wf = true → evalNode env (convert keys o) = evalObj keys env o
-  | .tuple (h :: args), hc, hw => by
-    simp only [clean] at hc
+    ∀ o, o.wf = true → evalNode env (convert keys o) = evalObj keys env o
+  | .tuple (h :: args), hw => by
     simp only [Obj.wf, wfList, Bool.and_eq_true] at hw
     by_cases h1 : h.callable = true
-    · simp only [h1, if_true] at hc
-      have ih := convertList_eval keys env args hc hw.2
+    · have ih := convertList_eval keys env args hw.2
       simp only [convert, h1, if_true, evalNode, evalObj, ih, evalKw]
       cases evalObjs keys env args <;> rfl
-    · simp only [h1, Bool.false_eq_true, if_false] at hc
-      by_cases h2 : inKeys keys (.tuple (h :: args)) = true
+    · by_cases h2 : inKeys keys (.tuple (h :: args)) = true
       · simp [convert, evalObj, h1, h2, evalNode]
-      · simp only [h2, Bool.false_eq_true, if_false, Bool.and_eq_true] at hc
-        have hp : plain keys (.tuple (h :: args)) = true := by
-          simp [plain, h1, h2, hc.1, hc.2]
-        rw [convert_plain keys _ hp, evalObj_plain keys env _ hp, evalNode]
-  | .tuple [], _, _ => by
+      · simp [convert, evalObj, h1, h2, evalNode]
+  | .tuple [], _ => by
     by_cases h2 : inKeys keys (.tuple []) = true <;> simp [convert, evalObj, h2, evalNode]
-  | .list xs, hc, hw => by
-    simp only [clean] at hc
+  | .list xs, hw => by
     simp only [Obj.wf] at hw
-    have ih := convertList_eval keys env xs hc hw
+    have ih := convertList_eval keys env xs hw
     by_cases hg : (convertList keys xs).any Node.isGraphNode = true
     · simp only [convert, hg, if_true, evalNode, evalObj, ih, evalKw]
       cases evalObjs keys env xs <;> simp [applyFunc]
@@ -56,10 +44,9 @@ theorem convert_eval (keys : List Obj) (env : Obj → Option Obj) :
       have e := convertList_no_graphNode keys xs hg'
       rw [e, evalNodes_raw] at ih
       simp only [convert, hg', Bool.false_eq_true, if_false, evalNode, evalObj, ← ih, Option.map_some]
-  | .dict kvs, hc, hw => by
-    simp only [clean] at hc
+  | .dict kvs, hw => by
     simp only [Obj.wf, Bool.and_eq_true] at hw
-    have ih := convertVals_eval keys env kvs hc hw.2
+    have ih := convertVals_eval keys env kvs hw.2
     by_cases hg : (convertVals keys kvs).any Node.isGraphNode = true
     · simp only [convert, hg, if_true, evalNode, evalObj, ih, evalKw]
       cases hv : evalVals keys env kvs with
@@ -78,67 +65,60 @@ theorem convert_eval (keys : List Obj) (env : Obj → Option Obj) :
         rw [hv] at ih
         simp only [Option.map_some, Option.some.injEq] at ih
         rw [flatItems_inj _ _ ih]; rfl
-  | .int n, _, _ => by
+  | .int n, _ => by
     by_cases h2 : inKeys keys (.int n) = true <;> simp [convert, evalObj, h2, evalNode]
-  | .str s, _, _ => by
+  | .str s, _ => by
     by_cases h2 : inKeys keys (.str s) = true <;> simp [convert, evalObj, h2, evalNode]
-  | .none, _, _ => by simp [convert, evalObj, evalNode]
-  | .fn _, _, _ => by simp [convert, evalObj, evalNode]
-  | .quoted _, _, _ => by simp [convert, evalObj, evalNode]
-  | .app _ _ _, _, _ => by simp [convert, evalObj, evalNode]
+  | .none, _ => by simp [convert, evalObj, evalNode]
+  | .fn _, _ => by simp [convert, evalObj, evalNode]
+  | .quoted _, _ => by simp [convert, evalObj, evalNode]
+  | .app _ _ _, _ => by simp [convert, evalObj, evalNode]
 theorem convertList_eval (keys : List Obj) (env : Obj → Option Obj) :
-    ∀ xs, cleanList keys xs = true → wfList xs = true →
-      evalNodes env (convertList keys xs) = evalObjs keys env xs
-  | [], _, _ => by simp [convertList, evalNodes, evalObjs]
-  | x :: xs, hc, hw => by
-    simp only [cleanList, Bool.and_eq_true] at hc
+    ∀ xs, wfList xs = true → evalNodes env (convertList keys xs) = evalObjs keys env xs
+  | [], _ => by simp [convertList, evalNodes, evalObjs]
+  | x :: xs, hw => by
     simp only [wfList, Bool.and_eq_true] at hw
-    simp only [convertList, evalNodes, evalObjs, convert_eval keys env x hc.1 hw.1,
-      convertList_eval keys env xs hc.2 hw.2]
+    simp only [convertList, evalNodes, evalObjs, convert_eval keys env x hw.1, convertList_eval keys env xs hw.2]
 theorem convertVals_eval (keys : List Obj) (env : Obj → Option Obj) :
-    ∀ kvs, cleanVals keys kvs = true → wfVals kvs = true →
-      evalNodes env (convertVals keys kvs) = (evalVals keys env kvs).map flatItems
-  | [], _, _ => by simp [convertVals, evalNodes, evalVals, flatItems]
-  | (k, v) :: rest, hc, hw => by
-    simp only [cleanVals, Bool.and_eq_true] at hc
+    ∀ kvs, wfVals kvs = true → evalNodes env (convertVals keys kvs) = (evalVals keys env kvs).map flatItems
+  | [], _ => by simp [convertVals, evalNodes, evalVals, flatItems]
+  | (k, v) :: rest, hw => by
     simp only [wfVals, Bool.and_eq_true] at hw
-    simp only [convertVals, evalNodes, evalNode, evalVals, convert_eval keys env v hc.1 hw.1,
-      convertVals_eval keys env rest hc.2 hw.2]
+    simp only [convertVals, evalNodes, evalNode, evalVals, convert_eval keys env v hw.1,
+      convertVals_eval keys env rest hw.2]
     cases evalObj keys env v <;> cases evalVals keys env rest <;> simp [flatItems]
 end
 
-/-- **Conversion preserves the legacy value** of every object in which no element of a non-task, non-key tuple needs
-    evaluation (PARTIAL: hypothesis `clean`; see the refutation). Dict values — at any depth, in any position — are
-    evaluated like list elements. -/
-theorem convert_preserves_eval_partial (keys : List Obj) (env : Obj → Option Obj) (o : Obj)
-    (hc : clean keys o = true) (hw : o.wf = true) : evalNode env (convert keys o) = evalObj keys env o :=
-  convert_eval keys env o hc hw
+/-- **Conversion preserves the legacy value** — the statement at full strength: for every key set, every environment
+    and every legacy object (dicts with hashable, pairwise distinct keys), evaluating the converted node gives exactly
+    what the legacy semantics gives: tuples headed by a callable are calls, lists and dicts are evaluated elementwise at
+    any depth, hashable values equal to a key are references, everything else — non-task tuples included — is a literal. -/
+theorem convert_preserves_eval (keys : List Obj) (env : Obj → Option Obj) (o : Obj) (hw : o.wf = true) :
+    evalNode env (convert keys o) = evalObj keys env o :=
+  convert_eval keys env o hw
 
-/-- the former refutation witness D1, `(f, {"x": "a"})` with key `"a"`: since the `fix:` the dict value is evaluated -/
+/-- the former refutation witness D1, `(f, {"x": "a"})` with key `"a"`: since ca6daad the dict value is evaluated -/
 theorem convert_dict_values_evaluated :
     evalNode (fun _ => some (.int 1)) (convert [.str "a"] (.tuple [.fn 0, .dict [(.str "x", .str "a")]])) =
       some (.app 0 [.dict [(.str "x", .int 1)]] []) ∧
     evalObj [.str "a"] (fun _ => some (.int 1)) (.tuple [.fn 0, .dict [(.str "x", .str "a")]]) =
       some (.app 0 [.dict [(.str "x", .int 1)]] []) := by decide
 
-/-- `(f, (1, "a"))` with key `"a"`: the code evaluates the inner tuple elementwise, the statement keeps it. -/
-theorem convert_preserves_eval_refuted_tuple : ¬ FullStatement := by
-  intro h
-  have := h [.str "a"] (fun _ => some (.int 1)) (.tuple [.fn 0, .tuple [.int 1, .str "a"]]) (by decide)
-  revert this
-  decide
+/-- the former refutation witness D2, `(f, (1, "a"))` with key `"a"`: the inner tuple is a literal for both -/
+theorem convert_non_task_tuple_literal :
+    evalNode (fun _ => some (.int 1)) (convert [.str "a"] (.tuple [.fn 0, .tuple [.int 1, .str "a"]])) =
+      some (.app 0 [.tuple [.int 1, .str "a"]] []) ∧
+    evalObj [.str "a"] (fun _ => some (.int 1)) (.tuple [.fn 0, .tuple [.int 1, .str "a"]]) =
+      some (.app 0 [.tuple [.int 1, .str "a"]] []) := by decide
 
-/-! non-vacuity: the statement's own example (a tuple key nested in a list inside a dict argument) is `clean` -/
-example : clean [.tuple [.str "x", .int 0]] (.tuple [.fn 1, .list [.tuple [.str "x", .int 0], .int 2]]) = true := by
-  decide
-example : clean [.tuple [.str "x", .int 0]]
-    (.tuple [.fn 1, .dict [(.str "kw", .list [.tuple [.str "x", .int 0], .int 2])]]) = true := by decide
-example : evalNode (fun _ => some (.int 5))
-    (convert [.tuple [.str "x", .int 0]] (.tuple [.fn 1, .dict [(.str "kw", .list [.tuple [.str "x", .int 0], .int 2])]]))
-    = some (.app 1 [.dict [(.str "kw", .list [.int 5, .int 2])]] []) := by decide
+/-! non-vacuity: the statement's own example (a tuple key nested in a list inside a dict argument) is well-formed -/
+example : Obj.wf (.tuple [.fn 1, .dict [(.str "kw", .list [.tuple [.str "x", .int 0], .int 2])]]) = true := by decide
 example : evalNode (fun _ => some (.int 5))
     (convert [.tuple [.str "x", .int 0]] (.tuple [.fn 1, .list [.tuple [.str "x", .int 0], .int 2]]))
     = some (.app 1 [.list [.int 5, .int 2]] []) := by decide
+example : evalNode (fun _ => some (.int 5))
+    (convert [.tuple [.str "x", .int 0]] (.tuple [.fn 1, .dict [(.str "kw", .list [.tuple [.str "x", .int 0], .int 2])]]))
+    = some (.app 1 [.dict [(.str "kw", .list [.int 5, .int 2])]] []) := by decide
 
 /-! ### graph level: `convert_legacy_graph` + `execute_graph` vs the legacy denotation -/
 
@@ -189,15 +169,15 @@ theorem lookup_convertGraph (keys : List Obj) (k : Obj) : ∀ (g : LGraph),
         simp only [hk', ih]
 
 /-- **`dask.core.get` computes the legacy value** (denotation of the converted graph = legacy denotation), for every
-    graph whose values are `clean` and which has no entry that aliases itself (PARTIAL: see the refutations). -/
-theorem convertGraph_preserves_eval_partial (g : LGraph) (keys : List Obj) (cache : Obj → Option Obj)
-    (hclean : ∀ kv ∈ g, clean keys kv.2 = true ∧ kv.2.wf = true)
+    graph with well-formed values and no entry that aliases itself (`{'a': 'a'}`: `convert_legacy_graph` skips it). -/
+theorem convertGraph_preserves_eval (g : LGraph) (keys : List Obj) (cache : Obj → Option Obj)
+    (hclean : ∀ kv ∈ g, kv.2.wf = true)
     (hns : ∀ kv ∈ g, convertTop keys kv.1 kv.2 ≠ none) :
     ∀ (fuel : Nat) (k : Obj), evalKeyN (convertGraph keys g) cache fuel k = evalKeyL g keys cache fuel k
   | 0, _ => rfl
   | fuel + 1, k => by
     have ih : evalKeyN (convertGraph keys g) cache fuel = evalKeyL g keys cache fuel :=
-      funext (convertGraph_preserves_eval_partial g keys cache hclean hns fuel)
+      funext (convertGraph_preserves_eval g keys cache hclean hns fuel)
     simp only [evalKeyN, evalKeyL, lookup_convertGraph keys k g hns]
     cases hl : g.lookup k with
     | none => simp
@@ -208,7 +188,7 @@ theorem convertGraph_preserves_eval_partial (g : LGraph) (keys : List Obj) (cach
       | some n =>
         simp only [Option.bind_some, hct]
         rw [convertTop_eval keys _ k v n hct, ih]
-        exact convert_eval keys _ v (hclean _ hm).1 (hclean _ hm).2
+        exact convert_eval keys _ v (hclean _ hm)
 
 /-! ### dependencies: exactly the keys a node references -/
 
@@ -222,20 +202,17 @@ theorem deps_exact (n : Node) :
   ⟨fun env env' h => evalNode_congr env env' n h, fun env k hk he => evalNode_missing env k he n hk⟩
 
 
-/-- **On clean objects the converted node's dependencies are exactly what `get_dependencies` reports** (the same list,
-    in the same order); the refutation witness above is the way an object can fail to be clean. -/
-theorem deps_exact_legacy_partial (keys : List Obj) (hKt : ∀ k ∈ keys, k.keyTyped = true) (o : Obj)
-    (hc : clean keys o = true) : (convert keys o).deps = legacyRefs keys o :=
-  convert_deps keys hKt o hc
+/-- **The converted node's dependencies are exactly what `get_dependencies` reports** (the same list, in the same
+    order), for every legacy object. -/
+theorem deps_exact_legacy (keys : List Obj) (hKt : ∀ k ∈ keys, k.keyTyped = true) (o : Obj) :
+    (convert keys o).deps = legacyRefs keys o :=
+  convert_deps keys hKt o
 
-/-- the former witness: a key inside a dict value is a dependency for both -/
-theorem deps_dict_value_agree :
+/-- the former witnesses: a key inside a dict value is a dependency for both, a key inside a non-task tuple for neither -/
+theorem deps_former_witnesses :
     (convert [.str "a"] (.tuple [.fn 0, .dict [(.str "x", .str "a")]])).deps = [.str "a"] ∧
-    legacyRefs [.str "a"] (.tuple [.fn 0, .dict [(.str "x", .str "a")]]) = [.str "a"] := by decide
-
-/-- against legacy `get_dependencies` the converted node's dependencies differ on the tuple witness -/
-theorem deps_vs_get_dependencies_refuted_tuple :
-    (convert [.str "a"] (.tuple [.fn 0, .tuple [.int 1, .str "a"]])).deps = [.str "a"] ∧
+    legacyRefs [.str "a"] (.tuple [.fn 0, .dict [(.str "x", .str "a")]]) = [.str "a"] ∧
+    (convert [.str "a"] (.tuple [.fn 0, .tuple [.int 1, .str "a"]])).deps = [] ∧
     legacyRefs [.str "a"] (.tuple [.fn 0, .tuple [.int 1, .str "a"]]) = [] := by decide
 
 
@@ -339,7 +316,7 @@ example : TopoListed [(.str "a", .data (.int 1)), (.str "b", .task (.call (.fn 0
 
 /-- non-vacuity of the graph-level hypotheses: `{'a': 1, 'b': (f, 'a', [2, 'a'])}` -/
 example : (∀ kv ∈ ([(.str "a", .int 1), (.str "b", .tuple [.fn 0, .str "a", .list [.int 2, .str "a"]])] : LGraph),
-      clean [.str "a", .str "b"] kv.2 = true ∧ kv.2.wf = true) ∧
+      kv.2.wf = true) ∧
     (∀ kv ∈ ([(.str "a", .int 1), (.str "b", .tuple [.fn 0, .str "a", .list [.int 2, .str "a"]])] : LGraph),
       convertTop [.str "a", .str "b"] kv.1 kv.2 ≠ none) ∧
     (∀ k ∈ [Obj.str "a", .str "b"], k.keyTyped = true) := by decide
